@@ -76,7 +76,7 @@ type DAct struct {
 	C  int    `json:"c,omitempty"`
 	I  int    `json:"i,omitempty"`
 	M  string `json:"m,omitempty"` // setw: ok | fail | block; failread / cancelcall: the kind of error (see dmxErr)
-	S  string `json:"s,omitempty"` // deliver / write: shape of the envelope: "" full | nobody | emptybody | zero (the all-default Rpc{})
+	S  string `json:"s,omitempty"` // deliver / write: shape of the envelope: "" full | nobody | emptybody | zero (the all-default Rpc{}) | reset | trailer | status | bodyonly
 	D  int    `json:"d,omitempty"` // tick: milliseconds of virtual time
 }
 
@@ -232,6 +232,18 @@ func (r *dmxRig) mkRpc(k, v int64, write bool, shape string) *Rpc {
 		rpc.Body = &goatorepo.Body{Data: []byte{}}
 	case "zero": // the all-default envelope (its key is whatever the key function makes of it)
 		rpc = &Rpc{}
+	case "reset": // a stream reset: header + Reset, nothing else
+		rpc.Body = nil
+		rpc.Reset_ = &goatorepo.Reset{Type: "RST_STREAM"}
+	case "trailer": // a bare trailer (late half-close): header + Trailer, no body
+		rpc.Body = nil
+		rpc.Trailer = &goatorepo.Trailer{Metadata: []*goatorepo.KeyValue{{Key: "t", Value: "1"}}}
+	case "status": // a unary error reply: header + status + trailer, no body
+		rpc.Body = nil
+		rpc.Status = &goatorepo.ResponseStatus{Code: 5, Message: "not found"}
+		rpc.Trailer = &goatorepo.Trailer{}
+	case "bodyonly": // no header at all
+		rpc.Header = nil
 	}
 	r.orig[v] = clone(rpc)
 	return rpc
